@@ -1,0 +1,28 @@
+//go:build verif
+// +build verif
+
+package config
+
+// Setters for the verification harness (build tag verif only): the harness links the
+// packages in-process and never runs InitConfig (which parses flags and files).
+
+func verifC() *config {
+	if globalC == nil {
+		globalC = new(config)
+		globalC.HlsFragment = 5
+	}
+	return globalC
+}
+
+// VerifSetCacheGop sets cache_gop.
+func VerifSetCacheGop(on bool) { verifC().CacheGop = on }
+
+// VerifSetAuth sets auth.
+func VerifSetAuth(on bool) { verifC().Auth = on }
+
+// VerifSetHls sets hlsfragment (seconds) and hlspath ("" = memory segments).
+func VerifSetHls(fragment int, path string) {
+	c := verifC()
+	c.HlsFragment = fragment
+	c.HlsPath = path
+}
